@@ -152,6 +152,24 @@ def single_files(tier):
     return fn
 
 
+def bigfile(tier):
+    MIB = 1024 * 1024
+
+    def fn(b, sym):
+        n = sym.int("size_big", 0, (2 if tier == "quick" else 5) * MIB + 1)
+        if not b.real:
+            b.world.max_reads = 4000
+        b.mkfile("R/big.mov", 1, size=n)
+        b.mkfile("R/d/small.txt", 2, size=7)
+        fmts = sym.choose("fmts", [["md5"], ["xxh64", "c4"], ["md5", "sha1", "xxh128"]])
+        names_before = {"R": []}
+        r = b.run("create", root="R", h=fmts)
+        b.require(r.exit == 0 and r.exc is None, "create-exit-0", str(r))
+        roots, news = new_manifests(b, None, names_before, "R")
+        check_records(b, "R", fmts, roots, news, cm.expected_records(b, "R", roots))
+    return fn
+
+
 def harnesses(tier):
     out = ["-sf targets outside the root", "overlapping -sf selections", "symlinks",
            "XML escaping of special names (lxml; exercised only in the real replays)", "user ignore patterns (C12)"]
@@ -164,6 +182,9 @@ def harnesses(tier):
                 what="create on U2 with any subset of 4 candidate nested histories created in either order",
                 bounds={"tree": "R/{s.txt,A/{a1.txt,AA/{aa1.txt,AAA/{aaa1.txt}}},AB/{ab1.txt},B/{b1.txt}}",
                         "nested roots": "any subset (<=3 quick) of A/AA/AAA, A/AA, A, AB, B (A/AB are prefix siblings)"}, outside=out),
+        Harness("c02-bigfile", bigfile(tier), frontier=3, budget_s=600,
+                what="create on a tree with one file of symbolic length across the 1 MiB read-chunk boundaries: size attribute and digests of the records",
+                bounds={"file length": "0..2 MiB+1 (quick) / 5 MiB+1 (thorough)"}, outside=out),
         Harness("c02-sf", single_files(tier), frontier=4, budget_s=900,
                 what="create -sf with 6 selections (file, nested file, folder, two files, file+folder, empty folder), optional child history at d",
                 bounds={"selections": 6}, outside=out),
